@@ -1037,7 +1037,7 @@ def clean(lines):
             break
 
 
-def drive(run, profile, nscripts, nops, theorem_pid=None, asan=False, reopen=False, extra_check=None, audit=False, geometry=0, boundary=0, bigfile=0, slack=True, destroy=0, thin=0, uplink=0, probe=0, hugekey=0):
+def drive(run, profile, nscripts, nops, theorem_pid=None, asan=False, reopen=False, extra_check=None, audit=False, geometry=0, boundary=0, bigfile=0, slack=True, destroy=0, thin=0, uplink=0, probe=0, hugekey=0, ringrun=0):
     """common body of the KV checks"""
     proofs_ok = run.proofs(theorem_pid or run.pid)
     impl = vlib.build_harness("h_kv", "asan" if asan else "plain")
@@ -1074,6 +1074,10 @@ def drive(run, profile, nscripts, nops, theorem_pid=None, asan=False, reopen=Fal
             rng = run.rng.fork()
             ls, meta = thin_script(rng, os.path.join(work, "t%d.db" % n), wal=rng.below(2))
             scripts.append(("thin%d" % n, ls, meta))
+        for n in range(ringrun or 0):
+            rng = run.rng.fork()
+            ls, meta = ringrun_script(rng, os.path.join(work, "rr%d.db" % n), wal=rng.below(2))
+            scripts.append(("ringrun%d" % n, ls, meta))
         for n in range(hugekey or 0):
             rng = run.rng.fork()
             ls, meta = hugekey_script(rng, os.path.join(work, "h%d.db" % n), wal=rng.below(2))
@@ -1134,10 +1138,17 @@ def drive(run, profile, nscripts, nops, theorem_pid=None, asan=False, reopen=Fal
                     if kind == "crash":
                         return r not in (0, None) or (o and o[-1] is None)
                     return any(b[1].split("  [line")[0] == first_msg for b in oc.bad)
+                origin = name.rstrip("0123456789")
+                if origin == "ringrun":
+                    # a directed reproduction keeps its identity (the known-findings file names it): not minimised, not counted
+                    run.violation({"script": final[:8] + ["... (checks/kvcommon.py ringrun_script)"], "modes": meta["modes"], "kind": kind,
+                                   "class": first_msg or "crash", "origin": origin, "harness": "h_kv",
+                                   "failures": [b[1] for b in orc.bad[:5]]}, why)
+                    continue
                 nviol += 1
                 small = shrink(impl, final, meta["modes"], pred, auditor=auditor) if nviol <= 2 else final
                 clean(small)
-                run.violation({"script": small, "modes": meta["modes"], "kind": kind, "class": first_msg or "crash",
+                run.violation({"script": small, "modes": meta["modes"], "kind": kind, "class": first_msg or "crash", "origin": origin,
                                "harness": "h_kv", "failures": [b[1] for b in orc.bad[:5]]}, why)
                 continue
             if True:
@@ -1365,6 +1376,19 @@ def thin_script(rng, path, wal=0):
         L.append("get 0 %s 0" % hexb(b"k%05d" % i))
     L += ["dump 0", "struct 0", "dump 1", "sync", "close", "open %s %d 0 0 0" % (path, wal), "db 0 1 000", "db 1 2 000", "dump 0", "dump 1", "getmeta 1 10000", "close"]
     return L, {"modes": ["000", "000"], "wal": wal}
+
+
+def ringrun_script(rng, path, wal=0):
+    """one node on level 1 followed by a run of 60 / 80 nodes on level 0 (levels forced through the library's test hook),
+    then a put that makes a new level-1 node behind the run: the search walks the whole run on level 0 and needs more node
+    copies than the 50-slot ring of the search context holds.  Reproduces the recorded finding C06-ring-overrun."""
+    L = ["open %s %d 0 1 0" % (path, wal), "db 0 1 000", "level 1", "put 0 %s 0 61 0 0" % hexb(b"k99999")]
+    n = 32 * rng.choice([60, 80]) + 31
+    for i in range(n, 0, -1):
+        L.append("level 0")
+        L.append("put 0 %s 0 62 0 0" % hexb(b"k%05d" % i))
+    L += ["struct 0", "level 1", "put 0 %s 0 63 0 0" % hexb(b"k00000"), "struct 0", "sync", "dump 0", "close"]
+    return L, {"modes": ["000"], "wal": wal}
 
 
 def hugekey_script(rng, path, wal=0):
